@@ -144,7 +144,10 @@ def _accumulation_loops(ctx, writes):
                     if cs is not None and any(reaches(t) for t in r.live_targets(cs, r.instantiated)):
                         sites.append(x)
             if sites:
-                out.append((f, lp, sites, body_nodes))
+                # the conditions are taken at the counting sites; an absence initialisation sits under its own absence test
+                # by construction (that test filters nothing)
+                counting = [x for x in sites if not any(x is wn and kind == "init" for ff, wn, kind, _ in writes if ff is f)]
+                out.append((f, lp, counting, body_nodes))          # a loop that only initialises has nothing to filter
     return out
 
 
